@@ -39,11 +39,15 @@ FLOORS = {
     "quick": {"accepted-with-ext-constructs": 3000, "removal-cases": 5000, "lookalike-cases": 20000,
               "parses-after-extensions-were-registered-by-hand": 30000, "source-walks": 3000,
               "lookalike-str-with-lone-surrogate": 1000, "require-hidden-in-a-literal": 3000,
-              "constructs-checked": 10000},
+              "constructs-checked": 10000,
+              "parses-on-a-parser-that-loaded-everything-before": 10000,
+              "removal-cases-on-the-parser-that-accepted-the-full-script": 2000},
     "thorough": {"accepted-with-ext-constructs": 60000, "removal-cases": 50000, "lookalike-cases": 400000,
                  "parses-after-extensions-were-registered-by-hand": 600000, "source-walks": 20000,
                  "lookalike-str-with-lone-surrogate": 12000,
-                 "constructs-checked": 200000},
+                 "constructs-checked": 200000,
+                 "parses-on-a-parser-that-loaded-everything-before": 200000,
+                 "removal-cases-on-the-parser-that-accepted-the-full-script": 20000},
 }
 SHARD_TIMEOUT = {"quick": 600, "thorough": 3000}
 
@@ -167,6 +171,27 @@ def source_walk(data: bytes):
 PRELOAD = {"n": 0}
 
 
+PRIMER = (gen.ALL_EXT_PREAMBLE +
+          b'if allof (envelope :is "from" "a", body :contains "x", hasflag "\\\\Seen", '
+          b'exists "A", currentdate :value "ge" "year" "2000", header :regex "s" "x", '
+          b'header :count "ge" "s" "1") '
+          b'{ fileinto :copy :create :flags "f" "a"; reject "no"; addflag "f"; setflag "g"; '
+          b'removeflag "h"; vacation :days 2 :addresses ["a@b"] "r"; redirect :copy "a@b"; '
+          b'set "v" "1"; }\n')
+PRIMED = {"ok": None}
+
+
+def primed_parser():
+    p = lab.sl_parser.Parser()
+    try:
+        ok = p.parse(PRIMER)
+    except Exception:
+        ok = None
+    if PRIMED["ok"] is None:
+        PRIMED["ok"] = ok is True
+    return p if ok is True else None
+
+
 def check_accept(label, data, info, res: Result):
     PRELOAD["n"] += 1
     if label in ("lookalike", "replay") or (label != "tok" and PRELOAD["n"] % 4 == 0):
@@ -175,7 +200,15 @@ def check_accept(label, data, info, res: Result):
         if lab.complete_require_by_hand():
             res.count("parses-after-extensions-were-registered-by-hand")
     as_text = info.get("as_str")
-    o = lab.parse(as_text if as_text is not None else data)
+    used = None
+    if label != "tok" and PRELOAD["n"] % 3 == 2:
+        # a Parser object that has parsed before: a script that requires every extension
+        # and uses a command, a test and a tag of many of them.  What an earlier script on
+        # the same object had loaded gates nothing in this one
+        used = primed_parser()
+        if used is not None:
+            res.count("parses-on-a-parser-that-loaded-everything-before")
+    o = lab.parse(as_text if as_text is not None else data, parser=used)
     if o.verdict() is not True:
         res.case(data, nontrivial=False)
         return
@@ -204,10 +237,12 @@ def check_accept(label, data, info, res: Result):
             from ..core import minimise
 
             def pred(t):
-                oo = lab.parse(gen.join_tokens(t))
+                oo = lab.parse(gen.join_tokens(t),
+                               parser=primed_parser() if used is not None else None)
                 return oo.verdict() is True and (what, ext) in walk(oo.result)[0]
             wdata = gen.join_tokens(minimise(info["toks"], pred))
-        res.violation(sig, {"input": wdata, "label": label})
+        res.violation(sig, {"input": wdata, "label": label,
+                            "parsed_before_on_the_same_parser": PRIMER if used is not None else None})
 
 
 # ---- removal direction ------------------------------------------------------
@@ -235,14 +270,22 @@ def check_removal(body, exts, removed, rng, res: Result, label):
     want = j.reason.split(":", 1)[1]
     ftoks = g.require_tokens(exts) + body
     full = gen.render(gen.recase(ftoks, "upper", rng) if upper else ftoks, style)
-    if lab.parse(full).verdict() is not True:
+    fo = lab.parse(full)
+    if fo.verdict() is not True:
         # the parser does not accept the un-reduced script: that is C01's finding,
         # the premise 'a valid script' of the removal clause does not hold
         res.count("removal-skipped:base-not-accepted")
         return
     if lab.complete_require_by_hand():
         res.count("parses-after-extensions-were-registered-by-hand")
-    o = lab.parse(data)
+    before = None
+    if rng.random() < 0.5:
+        o = lab.parse(data)
+    else:
+        # the reduced script goes to the Parser object that has just accepted the full one
+        res.count("removal-cases-on-the-parser-that-accepted-the-full-script")
+        o = lab.parse(data, parser=fo.parser)
+        before = full
     res.count("removal-cases")
     res.case(data)
     res.observe("removed-extension", want)
@@ -259,7 +302,7 @@ def check_removal(body, exts, removed, rng, res: Result, label):
                            "other-error" if o.verdict() is False else str(o.verdict()))}
         res.violation(sig, {"input": data, "expected": "extension '%s' not loaded" % want,
                             "parser": str(o.verdict()), "parser_error": o.error,
-                            "label": label})
+                            "label": label, "parsed_before_on_the_same_parser": before})
 
 
 def run_removal_gen(shard, res):
@@ -388,8 +431,21 @@ def replay(witness, res: Result):
     from ..core import unjson_bytes
     data = unjson_bytes(witness["input"])
     check_accept("replay", data, {}, res)
+    before = witness.get("parsed_before_on_the_same_parser")
+    if before is not None:
+        p = lab.sl_parser.Parser()
+        lab.parse(unjson_bytes(before), parser=p)
+        o = lab.parse(data, parser=p)
+        if o.verdict() is True:
+            for what, ext in walk(o.result)[0][:1]:
+                res.violation({"dir": "ungated-use", "construct": what, "ext": ext},
+                              {"input": data, "parsed_before_on_the_same_parser": before})
     if "expected" in witness:
         o = lab.parse(data)
+        if before is not None:
+            p = lab.sl_parser.Parser()
+            lab.parse(unjson_bytes(before), parser=p)
+            o = lab.parse(data, parser=p)
         j = rsieve.judge(data)
         if j.v == rsieve.REJECT and j.reason.startswith("EXT_NOT_LOADED:"):
             want = j.reason.split(":", 1)[1]
